@@ -10,10 +10,14 @@ import (
 	"testing"
 
 	"github.com/ja7ad/otp/internal/verifh"
+	"github.com/ja7ad/otp/internal/verifrt"
 	"pgregory.net/rapid"
 )
 
-func TestMain(m *testing.M) { verifh.Main(m, "A") }
+func TestMain(m *testing.M) {
+	verifrt.StrictSpawn = true
+	verifh.Main(m, "A")
+}
 
 // ---------------------------------------------------------------------------
 // race reports (race build only): the detector writes to GORACE log_path.<pid>
@@ -158,7 +162,7 @@ func raceViolation(prop string) *verifh.Violation {
 func TestSim(t *testing.T) {
 	prop := verifh.Prop()
 	switch prop {
-	case "C08", "C11", "C12":
+	case "C08", "C11", "C12", "C13":
 	default:
 		t.Skip("VERIF_PROP not a World A property")
 	}
